@@ -82,3 +82,11 @@ claim('C38', 'translation_validation',
       'The C37 call trees that have temporaries are transformed by the hoisting and stack pipelines (V/S hoist, direct-index stack V/S, Fortran-pointer stack, raw stack); z3 decides equivalence of driver results for every input and whether the transformed program can trap on the stack / hoisted arrays (= not enough storage on some path).',
       TV_NOTE + ' Pointer-based allocator variants that the interpreter cannot encode are reported per run as not encoded; CONTIGUOUS on explicit-shape dummies is dropped for the gfortran replay build only.',
       'translation validation: symbolic interpretation + SMT equivalence and trap reachability (z3), compiler replay', 'E-SMT', 'DESIGN.md#C37')
+claim('C26', 'model_checking',
+      'The real dataflow_analysis_attached annotates each template routine; the same IR nodes are executed by the symbolic interpreter with an event layer that attributes every read/write (also through callee dummies, sections and associate names, by storage identity) to the stack of executing nodes. For every node instance and every variable NOT in the reported defines/uses/live set z3 decides whether an input exists on which the node writes it / reads it before writing it / executes with it holding an earlier value. Only the over-approximation direction is checked.',
+      'Trusted: vlib/fsmt/interp.py event layer, z3. Loop induction variables are exempt (Loki convention: not considered outside the loop). Bounds: n in {3,4}, unwinding 6, ints |v|<=6.',
+      'SMT feasibility (z3) of read/write events of a symbolic execution vs the reported dataflow sets', 'E-SMT', 'DESIGN.md#C26')
+claim('C27', 'model_checking',
+      'Same event layer as C26 with loop iteration numbers: for every loop instance and every inspection node, z3 decides for each unreported variable whether an input exists on which an element written earlier (previous iteration / before the node) is read later without an intervening overwrite; then loop_carried_dependencies / read_after_write_vars must have reported it.',
+      'Trusted: vlib/fsmt/interp.py event layer, z3. Bounds as C26.',
+      'SMT feasibility (z3) of write->read event pairs with kill conditions vs the dependency queries', 'E-SMT', 'DESIGN.md#C27')
